@@ -783,7 +783,8 @@ def gen_value(rng, ir, t, depth=3, top=False, alphabet='xml', subclass_ok=False)
             out.append(v)
         if out and 'ref' in inner and rng.random() < .25:
             out.append(out[0])          # the same object twice in one array (not a cycle)
-        if ir.get('null_items') and inner.get('nillable', True) and 'array' not in inner and rng.random() < .2:
+        inner_req_attr_ = 'ref' in inner and any('attr' in ft and ft['attr'].get('min_occurs', 0) >= 1 for _, ft in all_fields(ir, inner['ref']))
+        if ir.get('null_items') and inner.get('nillable', True) and 'array' not in inner and not inner_req_attr_ and rng.random() < .2:
             out.insert(rng.randint(0, len(out)), None)       # a null item: first, in the middle, last or alone
         return out
     if 'seq' in t:
